@@ -1582,7 +1582,41 @@ vh_run(const VhTok* tape, size_t n, VhReport* rep)
 
     x.f_client = vsim::spawn(client_main, nullptr, "client");
     int blocked = -1;
-    vsim::RunResult rr = vsim::run(x.sched, 400000, [&]() { return (x.client_done && x.other_done) || x.c.ended; }, &blocked);
+    // Hang inside acquire_stop / acquire_abort: the client is in there and for 2 s of virtual time
+    // no device call happened (worker threads that poll every 10 ms keep the scheduler busy, so this
+    // is not a global deadlock; periods and delays are <= 30 ms).
+    uint64_t hang_since = 0, hang_events = 0;
+    auto done = [&]() {
+        if ((x.client_done && x.other_done) || x.c.ended)
+            return true;
+        if (!x.in_stop_or_abort) {
+            hang_since = 0;
+            return false;
+        }
+        uint64_t ev = 0;
+        for (vmock::Instance* i : vmock::hub.instances)
+            ev += i->calls + i->packets.size() + i->events.size();
+        uint64_t now = vsim::now_ns();
+        if (!hang_since || ev != hang_events) {
+            hang_since = now;
+            hang_events = ev;
+            return false;
+        }
+        if (now - hang_since > 2000000000ull) {
+            std::string who;
+            for (int f = 0; f < vsim::nfibers(); ++f)
+                if (vsim::info(f).st != vsim::DONE) {
+                    char b[80];
+                    snprintf(b, sizeof b, "%s#%d:%s ", vsim::info(f).name, f, vsim::state_name(vsim::info(f).st));
+                    who += b;
+                }
+            x.c.fail(x.any_fault_in_case ? "C09" : "C07", "stop-or-abort-hangs", x.any_fault_in_case ? "after-device-fault" : "no-fault",
+                     "the client has been inside acquire_stop/acquire_abort for 2 s of virtual time without a single device call (%s): it never returns", who.c_str());
+            return true;
+        }
+        return false;
+    };
+    vsim::RunResult rr = vsim::run(x.sched, 400000, done, &blocked);
     if (x.sched.preemptions)
         x.c.cls(CL_PREEMPT);
     if (!x.c.ended) {
